@@ -22,9 +22,9 @@ import ocispec "github.com/opencontainers/image-spec/specs-go/v1"
 // This file only re-exports unexported state for the verification harness
 // (property C14). It is compiled only with the build tag "verif".
 
-// VerifReferrersState returns the detected referrers capability of r:
+// VerifReferrersStateC14 returns the detected referrers capability of r:
 // 0 unknown, 1 supported, 2 unsupported.
-func VerifReferrersState(r *Repository) int32 { return r.loadReferrersState() }
+func VerifReferrersStateC14(r *Repository) int32 { return r.loadReferrersState() }
 
 // VerifRemoveEmptyDescriptors re-exports removeEmptyDescriptors.
 func VerifRemoveEmptyDescriptors(descs []ocispec.Descriptor, hint int) []ocispec.Descriptor {
